@@ -732,8 +732,8 @@ func simMain(t *testing.T) {
 			sigs[sig] = rec
 			pl, sc := plan.Used(), sched.Used()
 			rf := ReplayFile{Property: id, Tier: tier, BaseSeed: base, RunIndex: idx, Signature: sig, Oracle: v.Oracle, Class: v.Class, Detail: v.Detail, Race: raceBuild}
-			if len(sigs) <= 6 && v.Oracle != "race" && os.Getenv("VERIF_NOSHRINK") == "" {
-				spl, ssc, n := shrink(t, p, tier, pl, sc, sig, 400, 60*time.Second)
+			if len(sigs) <= 4 && v.Oracle != "race" && os.Getenv("VERIF_NOSHRINK") == "" && time.Since(wallStart) < budget {
+				spl, ssc, n := shrink(t, p, tier, pl, sc, sig, 400, 40*time.Second)
 				// confirm the minimised pair and take its trace
 				o3 := execute(t, p, tier, simrt.ReplayTape(spl), simrt.ReplayTape(ssc))
 				if v3, ok := hasSig(o3.viol, sig); ok {
